@@ -472,7 +472,9 @@ def oracle_call(h, i, out, presets):
     t1, t2 = int(c["times"][0]), int(c["times"][1])
     # the call is well-formed: a word-sized image with a configuration area, a struct with an unambiguous
     # packed form and the three fixed fields, options that name system variables
-    shaped = (len(image) % 4 == 0 and 512 <= len(image) < 32768 and packable(sv)
+    # (an image that ends inside the configuration area, 384..508 bytes, is in the domain: the area sent is still the
+    #  whole 128 bytes -- the image is extended to 512 bytes; below 384 bytes there is no place for the area: outside)
+    shaped = (len(image) % 4 == 0 and 384 <= len(image) < 32768 and packable(sv)
               and all(n in sv["fields"] for n in FIXED)
               and all(k in sv["fields"] and isinstance(v, int) for k, v in asked.items()))
     if not shaped:
